@@ -423,7 +423,7 @@ def _const(run, P):
            construct="complex and bool constants are dealt with (and left) before the numeric formatting",
            why="bool is an int: reaching the numeric branch, True prints as 'Trued0'")
     src = ast.unparse(f.node)
-    ok = "if expr < 0:" in src and "'(%s)' % result" in src
+    ok = f"if {f.arg(0)} < 0:" in src and "'(%s)' % result" in src
     run.ob("C03.const", f, f.node, ok,
            construct="negative constants are parenthesized",
            why="'a * -2d0' and '-2d0**2d0' are not what the expression tree says")
@@ -432,7 +432,7 @@ def _const(run, P):
 def _run(run, P):
     f = P.func(f"{GEN}.emit_run_step")
     loops = [n for n in ast.walk(f.node) if isinstance(n, ast.For)
-             and "dag.phases" in ast.unparse(n.iter)]
+             and f"{f.arg(0)}.phases" in ast.unparse(n.iter)]
     if len(loops) != 1:
         raise AnalysisError("emit_run_step: loop over phases not found")
     lp = loops[0]
@@ -465,7 +465,7 @@ def _run(run, P):
     strs = [s for _, _, s, _ in _emit_strings(sw)]
     ok = len(strs) >= 2 and strs[0].startswith("dagrt_state%dagrt_next_phase = ") \
         and strs[-1] == f"goto {label}" \
-        and "inst.next_phase" in ast.unparse(sw.node)
+        and f"{sw.arg(0)}.next_phase" in ast.unparse(sw.node)
     run.ob("C03.run", sw, sw.node, ok,
            construct=f"SwitchPhase: {strs}",
            why="the target must be stored before leaving through the exit label")
@@ -508,7 +508,8 @@ def _loop(run, P):
            construct="interpreter: range(start, stop)",
            why="reference semantics")
     lw = P.func("dagrt.codegen.codegen_base.StructuredCodeGenerator.lower_node")
-    ok = "self.emit_for_begin(node.loop_var_name, node.lbound, node.ubound)" in ast.unparse(lw.node)
+    nd = lw.arg(0)
+    ok = f"self.emit_for_begin({nd}.loop_var_name, {nd}.lbound, {nd}.ubound)" in ast.unparse(lw.node)
     run.ob("C03.loop", lw, lw.node, ok,
            construct="walker passes (loop_var_name, lbound, ubound)",
            why="argument order")
@@ -522,7 +523,7 @@ def _handlers(run, P):
                construct=f"emit_inst_{kind}",
                why="a supported statement kind without a handler makes generation fail")
     li = P.func("dagrt.codegen.codegen_base.StructuredCodeGenerator.lower_inst")
-    ok = "'emit_inst_' + type(inst).__name__" in ast.unparse(li.node)
+    ok = f"'emit_inst_' + type({li.arg(0)}).__name__" in ast.unparse(li.node)
     run.ob("C03.handlers", li, li.node, ok,
            construct="dispatch by 'emit_inst_' + type(inst).__name__",
            why="naming convention the handlers rely on")
